@@ -5,3 +5,15 @@ claim("C19",
   "Decides for every path of every driver function (main + stgutg, all reachable from main) that each SCTP read/write, NGAP decode and connect result is handed to ManageError before the next I/O, use of the co-result or return; that ManageError reaches os.Exit(non-zero constant) on every path of its err!=nil side; that nothing recovers a fault; and that no I/O procedure can follow the completion banner. That is the fail-stop argument for every fault index k at once, which a fault-injection run can only sample.",
   "Trusted: os.Exit/panic terminate the process with the given/non-zero status; the SCTP library reports a closed association as an error. Not decided: the wall-clock bound of a blocked Read, and that ngap.Decoder turns every undecodable input into an error (C14/C03).",
   "DESIGN.md §5 C19")
+
+claim("C06",
+  "all-paths enumeration of NASEncode on SSA with path-sensitive store forwarding (counter events, branch facts on the header type), access-path argument-role tables for the crypto calls, bit-provenance abstract interpretation of security.Count, who-may-write scan for counters/keys",
+  "Decides for every entry→return path of tglib.NASEncode at once (not for sampled histories): COUNT is read unchanged for SQN octet, cipher and MAC and advanced exactly once afterwards, never on an error path; reset iff a new context is taken into use; cipher iff header type 2/4; algorithm/key/COUNT/BEARER=1/DIRECTION=0 wiring and the EPD||SHT||MAC||SQN||payload layout; and that the counter type keeps SQN in bits 7..0, overflow in bits 23..8 and wraps at 2^24. Since one NASEncode call is one step of any history, the per-call invariant is what makes message n carry COUNT n-1 for every history, including those past 256 and 2^24 messages.",
+  "Level 'other': structural necessary conditions. Not decided: the MAC/keystream values (C07), that a receiver verifies them. Trusted: NASEncrypt ciphers in place; single-goroutine use of one UE context.",
+  "DESIGN.md §5 C06")
+
+claim("C10",
+  "all-paths enumeration of NASDecode on SSA with path-sensitive store forwarding, feasibility of each path over header types 0..4, access-path argument-role tables, bit-provenance of the counter type, control-dependence check of GetNasPdu's IE selection",
+  "Decides for every path of tglib.NASDecode (NIA1/NIA2) which header types can take it and checks on each: DL COUNT reset exactly for types 3/4 before the estimate; overflow+1 exactly when stored SQN > received SQN, then SQN := payload[6]; MAC over payload[6:] and cipher over payload[7:] with the UE's algorithm/key, DLCount.Get(), BEARER 1, DIRECTION 1; cipher exactly for types 2/4; plain messages untouched; NAS-PDU IE chosen by id. This is the per-message step of every downlink history.",
+  "Level 'other'. Not decided: cipher/MAC arithmetic (C07), behaviour on MAC mismatch (the code only prints), NIA0 branch (outside the quantifier).",
+  "DESIGN.md §5 C10")
